@@ -65,6 +65,17 @@ func CheckInvariants(a *App, st *AppState, c InvCtx) []core.Violation {
 				"sum of all balances %s != recorded supply %s (diff %s)", sum, st.Supply, d))
 		}
 	}
+	if st.SupplyOK {
+		dsum := new(big.Int)
+		for _, b := range st.Dust {
+			dsum.Add(dsum, b)
+		}
+		if dsum.Cmp(st.SupplyDust) != 0 {
+			d := new(big.Int).Sub(dsum, st.SupplyDust)
+			rep("C02/supply-dust", d.String(), viol("C02", "supply-equals-balances", c.Step, map[string]string{"phase": c.Phase, "denom": "second"},
+				"sum of all balances in the second denomination %s != recorded supply %s", dsum, st.SupplyDust))
+		}
+	}
 	if len(st.Negative) > 0 {
 		rep("C02/neg", fmt.Sprint(st.Negative), viol("C02", "negative-balance", c.Step, ph, "negative balance at %v", st.Negative))
 	}
@@ -140,6 +151,21 @@ func CheckInvariants(a *App, st *AppState, c InvCtx) []core.Violation {
 	for _, kv := range st.UnstakeQ {
 		for _, ad := range a.decodeQueue(kv.V) {
 			queued[hx(ad)] = string(kv.K)
+		}
+	}
+	// an unstaking validator is queued exactly once, under its completion time: a second entry (a stale
+	// slot, a duplicate) would release it at another time or twice
+	entries := map[string][]string{}
+	for _, kv := range st.UnstakeQ {
+		for _, ad := range a.decodeQueue(kv.V) {
+			entries[hx(ad)] = append(entries[hx(ad)], string(kv.K))
+		}
+	}
+	for _, ah := range addrs {
+		v := st.Vals[ah]
+		if v.Status == sdk.Unstaking && len(entries[ah]) > 1 {
+			rep("C06/q-multi/"+ah, fmt.Sprint(len(entries[ah])), viol("C06", "unstaking-queue", c.Step, map[string]string{"phase": c.Phase, "what": "queued-more-than-once"},
+				"unstaking validator %s has %d entries in the unstaking queue", ah, len(entries[ah])))
 		}
 	}
 	for _, ah := range addrs {
